@@ -88,6 +88,13 @@ Module SpellExamples.
                       forall lenient, parse F0 lenient (render D4) = Ok (denote F0 D4).
   Proof. split; [|split; [|split; [|intros []]]]; vm_compute; reflexivity. Qed.
 
+  (* "-" and the empty token as positionals; "-" may even follow an omitted optional value *)
+  Definition D5 := {| ld_names := [s "server"; s "add"];
+    ld_items := [IBare o_color true; IPos (s "-"); IPos (s "80"); IFlag o_quiet false; IPos (s "")];
+    ld_tail := None |}.
+  Example D5_parses : wf_line F1 D5 = true /\ forall lenient, parse F1 lenient (render D5) = Ok (denote F1 D5).
+  Proof. split; [|intros []]; vm_compute; reflexivity. Qed.
+
   (* lines the side conditions exclude, and what the parser does with them *)
   (* an omitted optional value followed by a positional: the positional is swallowed *)
   Definition X1 := {| ld_names := []; ld_items := [IBare o_color true; IPos (s "h")]; ld_tail := None |}.
@@ -96,6 +103,18 @@ Module SpellExamples.
   (* an omitted command name followed by a value equal to it *)
   Definition X2 := {| ld_names := []; ld_items := [IPos (s "srv")]; ld_tail := None |}.
   Example X2_excluded : wf_line F1 X2 = false /\ parse F1 true (render X2) <> Ok (denote F1 X2).
+  Proof. split; [vm_compute; reflexivity|vm_compute; discriminate]. Qed.
+  (* an omitted optional value followed by an empty token: the token is swallowed *)
+  Definition X3 := {| ld_names := [s "server"; s "add"]; ld_items := [IPos (s "h"); IBare o_color true; IPos (s "")]; ld_tail := None |}.
+  Example X3_excluded : wf_line F1 X3 = false /\ parse F1 true (render X3) <> Ok (denote F1 X3).
+  Proof. split; [vm_compute; reflexivity|vm_compute; discriminate]. Qed.
+  (* "--name=" : the empty value counts as no value; for a REQUIRED_VALUE option the line is rejected *)
+  Definition X4 := {| ld_names := []; ld_items := [IVal o_num LongEq (s "")]; ld_tail := None |}.
+  Example X4_excluded : wf_line F0 X4 = false /\ parse F0 false (render X4) = Err CannotParse.
+  Proof. split; vm_compute; reflexivity. Qed.
+  (* a value after "--" that equals the first omitted command name is still taken for the command name *)
+  Definition X5 := {| ld_names := []; ld_items := []; ld_tail := Some [s "server"] |}.
+  Example X5_excluded : wf_line F1 X5 = false /\ parse F1 true (render X5) <> Ok (denote F1 X5).
   Proof. split; [vm_compute; reflexivity|vm_compute; discriminate]. Qed.
 End SpellExamples.
 
@@ -110,7 +129,7 @@ Lemma items_ok_names f g names items : Forall (fun s => plain_tok s = true) name
   items_ok f g items = true -> items_ok f g (map IPos names ++ items) = true.
 Proof.
   induction 1 as [|s r Hs Hr IH]; intros Hi; [exact Hi|]. cbn [map app items_ok item_ok looks_ahead].
-  rewrite Hs, (IH Hi). reflexivity.
+  rewrite (IH Hi). unfold plain_tok in Hs. apply andb_prop in Hs as [_ Hs]. unfold pos_tok. rewrite Hs. reflexivity.
 Qed.
 Lemma names_as_items names items :
   flat_map render_item (map IPos names ++ items) = names ++ flat_map render_item items /\
